@@ -231,6 +231,8 @@ func Text(class string, rng *rand.Rand) string {
 		return "na;me=1 with blank.txt"
 	case "dotted":
 		return "report.final.v2.pdf"
+	case "longutf8": // needs several RFC 2047 encoded words
+		return "Übersicht der Quartalszahlen für das Geschäftsjahr – Zusammenfassung und Ausblick auf die nächsten Monate.pdf"
 	}
 	if strings.HasPrefix(class, "words") { // wordsN: N-character words up to about 200 characters
 		n := 5
@@ -488,6 +490,9 @@ func Build(p Prog, seed int64, failSlot int, failWhen string, tmpdir string) (*B
 			pv := v
 			if h.Val == "multiline" {
 				pv = "first line\r\n second line\r\n\tthird line"
+			}
+			if h.Val == "lffold" { // folded by the caller with bare line feeds
+				pv = "first line\n second line\n\tthird line"
 			}
 			m.SetGenHeaderPreformatted(mail.Header("X-Verif-Pre"), pv)
 			names["X-Verif-Pre"] = true
